@@ -166,6 +166,22 @@ func p3HighWater(p *Prog, o *obls) {
 						})
 					}
 				}
+				if guarded == "" {
+					// the store sits in a helper (noteLatest): every call of the helper is guarded in the same way
+					if p.allCallersSatisfy(fn, func(site ssa.CallInstruction) bool {
+						sin, _ := site.(ssa.Instruction)
+						cf := sin.Parent()
+						cpd := postDominators(cf)
+						for cb := range transitiveControlDeps(cf, cpd, sin.Block()) {
+							if c := ifCond(cb); c != nil && p.backwardReaches(c, readsSelf) {
+								return true
+							}
+						}
+						return false
+					}, ipDepth) {
+						guarded = "a comparison with the field's previous value at every call of this helper"
+					}
+				}
 				if guarded != "" {
 					o.ok("P3", key, p.instrPos(st), "the store is control dependent on "+guarded)
 				} else {
@@ -967,9 +983,18 @@ func runEngineS(p *Prog, o *obls) {
 			continue
 		}
 		var fns []*ssa.Function
-		// every method of the recorder that updates a counter of the exported stats structs
+		// every method of the recorder, and every function of its package (by-value helpers such as
+		// addReceived(stats, …) stats), that updates a counter of the stats structs
+		var cand []*ssa.Function
 		for i := 0; i < t.NumMethods(); i++ {
-			f := p.SSA.FuncValue(t.Method(i))
+			cand = append(cand, p.SSA.FuncValue(t.Method(i)))
+		}
+		for _, f := range p.Funcs {
+			if f.Parent() == nil && f.Signature.Recv() == nil && f.Pkg != nil && relPkg(f.Pkg.Pkg.Path()) == ss.pkgPath {
+				cand = append(cand, f)
+			}
+		}
+		for _, f := range cand {
 			if f == nil || f.Blocks == nil {
 				continue
 			}
@@ -1356,10 +1381,13 @@ func s5FanOut(p *Prog, o *obls, registry string) {
 			o.undecided("S5", key, p.instrPos(rng), "the loop of the range over the registry was not recognised")
 			continue
 		}
-		var elem ssa.Value
+		var elem, keyV ssa.Value
 		for _, r := range *next.Referrers() {
 			if ex, ok := r.(*ssa.Extract); ok && ex.Index == 2 {
 				elem = ex
+			}
+			if ex, ok := r.(*ssa.Extract); ok && ex.Index == 1 {
+				keyV = ex
 			}
 		}
 		var bad []string
@@ -1372,11 +1400,17 @@ func s5FanOut(p *Prog, o *obls, registry string) {
 		}
 		isCall := func(in ssa.Instruction) bool {
 			c, ok := in.(*ssa.Call)
-			if !ok || elem == nil {
+			if !ok || (elem == nil && keyV == nil) {
 				return false
 			}
-			if c.Call.IsInvoke() && p.origin(c.Call.Value) == elem {
+			if c.Call.IsInvoke() && elem != nil && p.origin(c.Call.Value) == elem {
 				return true
+			}
+			// `for k := range m { m[k].Queue(…) }`: the receiver is the registry entry of the current key
+			if c.Call.IsInvoke() && keyV != nil {
+				if lk, ok := p.origin(c.Call.Value).(*ssa.Lookup); ok && !lk.CommaOk && p.origin(lk.Index) == keyV && loadOfField(p, lk.X, registry) {
+					return true
+				}
 			}
 			// a visitor helper: the loop calls a function parameter with the element, and every caller passes a
 			// literal that hands the batch to its argument on every path
